@@ -383,6 +383,13 @@ func (op *ShellOperator) conversionEventHandler(crdName string, request *v1.Conv
 				return nil, fmt.Errorf("hook task prop error")
 			}
 
+			// The hook reports a failure: relay its message and do not run the rest of the chain.
+			if response.FailedMessage != "" {
+				return &conversion.Response{
+					FailedMessage: response.FailedMessage,
+				}, nil
+			}
+
 			// Set response objects as new objects for a next round.
 			request.Objects = response.ConvertedObjects
 
